@@ -52,6 +52,9 @@ def plan(tier, seed):
         kinds = c01.BASELINE[lib]
         simple = [k for k in kinds if c01.kind_class(k) in ("int", "float", "bool")]
         t = simple[(seed + 1) % len(simple)]
+        if lib in ("Div", "Mod", "Pow"):
+            # two solves of a symbolic-by-symbolic division per element: 16-bit and wider operands get no verdict in 900 s
+            t = "u8" if "u8" in kinds else ("i8" if "i8" in kinds else t)
         q = "quick" if n % 3 == seed % 3 else "thorough"
         if arity == 2:
             for (lf, rf) in c01.KERNEL_FORMS:
